@@ -401,7 +401,15 @@ fn exec_c15(sc_in: &C15Scenario, paired: bool) -> Outcome {
                             None => continue,
                         };
                         for (fd, file) in [(1usize, "stdout.zst"), (2usize, "stderr.zst")] {
-                            let (pa, pb) = (&snap_a.get(hi).map(|x| x[fd].clone()).unwrap_or_default(), &snap_b.get(h2).map(|x| x[fd].clone()).unwrap_or_default());
+                            // only complete lines: an unfinished last line is still in the reader's hands when the
+                            // group is cancelled, and whether it is stored depends on which reader is dropped first
+                            let whole_lines = |v: Vec<u8>| -> Vec<u8> {
+                                match v.iter().rposition(|&c| c == b'\n') {
+                                    Some(i) => v[..=i].to_vec(),
+                                    None => vec![],
+                                }
+                            };
+                            let (pa, pb) = (&whole_lines(snap_a.get(hi).map(|x| x[fd].clone()).unwrap_or_default()), &whole_lines(snap_b.get(h2).map(|x| x[fd].clone()).unwrap_or_default()));
                             if pa.is_empty() || pa != pb {
                                 continue;
                             }
@@ -410,7 +418,7 @@ fn exec_c15(sc_in: &C15Scenario, paired: bool) -> Outcome {
                             let has_b = sb.get(&k).map(|s| s.starts_with(pb)).unwrap_or(false);
                             out.probe("cancelled_or_finished_member_compared_across_listener_configs", 1);
                             if has_a != has_b {
-                                out.violate("logs_with_listener", "differs_from_run_without_listener", format!("{} of '{}' for '{}': the {} bytes it had written 120 ms before a sibling failed are stored {} a listener and {} one", file, h.command, h.target, pa.len(), if has_a { "with" } else { "NOT with" }, if has_b { "without" } else { "NOT without" }));
+                                out.violate("logs_with_listener", "differs_from_run_without_listener", format!("{} of '{}' for '{}': the {} bytes of complete lines it had written before a sibling failed (and monorail had come to rest) are stored {} a listener and {} one", file, h.command, h.target, pa.len(), if has_a { "with" } else { "NOT with" }, if has_b { "without" } else { "NOT without" }));
                             }
                         }
                     }
